@@ -19,17 +19,31 @@ from typing import Dict, List
 from .. import core, tlc
 from ..core import Report
 
-# (vocabulary config, share of the sample)
+# (specification, vocabulary config, weight in the sample)
 CONFIGS = {
     "C12": {
-        "quick": ["Asm_cf_q.cfg", "Asm_data_q.cfg", "Asm_enc_q.cfg", "Asm_cfi_q.cfg"],
-        "thorough": ["Asm_cf_t.cfg", "Asm_data_t.cfg", "Asm_enc_t.cfg", "Asm_cfi_t.cfg"],
+        "quick": [("Asm.tla", "Asm_cf_q.cfg", 3), ("Asm.tla", "Asm_data_q.cfg", 2),
+                  ("Asm.tla", "Asm_enc_q.cfg", 2), ("Asm.tla", "Asm_cfi_q.cfg", 1.5),
+                  ("Asm.tla", "Asm_ops_q.cfg", 1.5)],
+        "thorough": [("Asm.tla", "Asm_cf_t.cfg", 3), ("Asm.tla", "Asm_data_t.cfg", 2),
+                     ("Asm.tla", "Asm_enc_t.cfg", 2), ("Asm.tla", "Asm_cfi_t.cfg", 1.5),
+                     ("Asm.tla", "Asm_ops_t.cfg", 1.5)],
     },
     "C13": {
-        "quick": ["Asm_sym_q.cfg", "Asm_chunk_q.cfg", "Asm_chunk2_q.cfg"],
-        "thorough": ["Asm_sym_t.cfg", "Asm_chunk_t.cfg", "Asm_chunk2_t.cfg", "Asm_mini5_t.cfg"],
+        "quick": [("Asm.tla", "Asm_sym_q.cfg", 2), ("Asm.tla", "Asm_chunk_q.cfg", 2),
+                  ("Asm.tla", "Asm_chunk2_q.cfg", 2), ("AsmRw.tla", "AsmRw_q.cfg", 0)],
+        "thorough": [("Asm.tla", "Asm_sym_t.cfg", 2), ("Asm.tla", "Asm_chunk_t.cfg", 2),
+                     ("Asm.tla", "Asm_chunk2_t.cfg", 2), ("Asm.tla", "Asm_mini5_t.cfg", 1),
+                     ("AsmRw.tla", "AsmRw_t.cfg", 0)],
     },
 }
+# scenarios of AsmRw.tla (several patches in one apply()) are all executed
+RWX_MAX = {"quick": 2000, "thorough": 12000}
+# targets gtirb-rewriting has an ABI for (rewrites), and the targets of the
+# ARM64 / MIPS32 operand forms
+ABI_TARGETS = [("x64", "elf", "att"), ("x64", "pe", "intel"), ("ia32", "pe", "att"),
+               ("arm64", "elf", "att"), ("mips32", "elf", "att")]
+OPS_KINDS = ("ldlit", "pg", "lo", "got", "gotlo")
 SAMPLE = {"C12": {"quick": 4000, "thorough": 60000},
           "C13": {"quick": 3000, "thorough": 40000}}
 MC_TIMEOUT = {"quick": 300, "thorough": 1500}
@@ -64,18 +78,20 @@ def _reservoir(res: List[str], seen: int, line: str, n: int, rng: random.Random)
             res[j] = line
 
 
-def sample_cases(src: str, dst: str, n: int, rng: random.Random, prop: str, tier: str) -> int:
-    """Seeded, stratified reservoir sample: three quarters of the budget go to
-    programs the model assembles, one quarter to programs it refuses (the
-    model's prediction only schedules cases, it is never a verdict).  Assigns
-    id, target and (C13) rewrite sites."""
+def sample_cases(src: str, out, n: int, rng: random.Random, prop: str, tier: str,
+                 first: int = 0) -> int:
+    """Seeded, stratified reservoir sample of one configuration's cases: three
+    quarters of the budget go to programs the model assembles, one quarter to
+    programs it refuses (the model's prediction only schedules cases, it is
+    never a verdict).  Assigns id, target and (C13) rewrite sites; writes to
+    the open file ``out``."""
     n_ok, n_err = n - n // 4, n // 4
     ok: List[str] = []
     err: List[str] = []
     k_ok = k_err = 0
     with open(src) as f:
         for line in f:
-            if '"mexc":""' in line:
+            if '"mexc":""' in line or '"kind":"rwx"' in line:
                 k_ok += 1
                 _reservoir(ok, k_ok, line, n_ok, rng)
             else:
@@ -83,18 +99,25 @@ def sample_cases(src: str, dst: str, n: int, rng: random.Random, prop: str, tier
                 _reservoir(err, k_err, line, n_err, rng)
     chosen = ok + err
     rng.shuffle(chosen)
-    with open(dst, "w") as out:
-        for i, line in enumerate(chosen):
-            c = json.loads(line)
-            isa, fmt, syn, pie = TARGETS[(i + rng.randrange(2) * 5) % len(TARGETS)]
-            c.update(id=f"{prop}-{i}", isa=isa, fmt=fmt, syn=syn, pie=pie, sfx="_7")
-            for t in c["toks"]:
-                t.pop("vc", None)
-            nchunks = max((t["ch"] for t in c["toks"]), default=1)
-            c["rw"] = RW_SITES if (prop == "C13" and nchunks == 1 and c.get("mexc") == ""
-                                   and i % 3 == 0) else []
-            c["rwc"] = (i // 3) % 2   # every other rewrite: prologue/epilogue chunks
+    for i, line in enumerate(chosen, start=first):
+        c = json.loads(line)
+        if c.get("kind") == "rwx":
+            isa, fmt, syn = ABI_TARGETS[i % len(ABI_TARGETS)]
+            c.update(id=f"{prop}-{i}", isa=isa, fmt=fmt, syn=syn, sites=2)
             out.write(json.dumps(c, separators=(",", ":")) + "\n")
+            continue
+        isa, fmt, syn, pie = TARGETS[(i + rng.randrange(2) * 5) % len(TARGETS)]
+        if any(t["k"] in OPS_KINDS for t in c["toks"]) or c.get("misa") in ("arm64", "mips32"):
+            # operand forms of ARM64 / MIPS32: the ISA the model explored
+            isa, fmt, syn, pie = c["misa"], ("elf", "pe")[i % 2], "att", False
+        c.update(id=f"{prop}-{i}", isa=isa, fmt=fmt, syn=syn, pie=pie, sfx="_7")
+        for t in c["toks"]:
+            t.pop("vc", None)
+        nchunks = max((t["ch"] for t in c["toks"]), default=1)
+        c["rw"] = RW_SITES if (prop == "C13" and nchunks == 1 and c.get("mexc") == ""
+                               and i % 3 == 0) else []
+        c["rwc"] = (i // 3) % 2   # every other rewrite: prologue/epilogue chunks
+        out.write(json.dumps(c, separators=(",", ":")) + "\n")
     return len(chosen)
 
 
@@ -113,33 +136,33 @@ def run(prop: str, tier: str, replay: str = None) -> int:
             res = tlc.model_check("Asm.tla", "Asm_mini.cfg", timeout=300, workers=WORKERS)
             rep.add_mc("Asm_mini.cfg", res)
         else:
-            allc = os.path.join(wd, "all.ndjson")
             rep.extra["generated_cases"] = 0
             cfgs = CONFIGS[prop][tier]
             # the configurations are independent model-checking runs: run them
             # side by side and share the cores between them
             per = max(2, WORKERS // len(cfgs))
 
-            def gen(cfg: str) -> dict:
+            def gen(c) -> dict:
+                spec, cfg, _ = c
                 part = os.path.join(wd, cfg + ".ndjson")
-                res = tlc.generate("Asm.tla", cfg, "CASE", part, timeout=MC_TIMEOUT[tier],
+                res = tlc.generate(spec, cfg, "CASE", part, timeout=MC_TIMEOUT[tier],
                                    workers=per, heap="4g")
                 res["part"] = part
                 return res
 
             with ThreadPoolExecutor(max_workers=len(cfgs)) as ex:
                 results = list(ex.map(gen, cfgs))
-            with open(allc, "w") as agg:
-                for cfg, res in zip(cfgs, results):
+            wsum = sum(w for _, _, w in cfgs)
+            first = 0
+            with open(cases, "w") as out:
+                for (spec, cfg, w), res in zip(cfgs, results):
                     res["ok"] = res["ok"] and res["distinct"] > 0
                     rep.add_mc(cfg, res)
-                    with open(res["part"]) as f:
-                        for line in f:
-                            agg.write(line)
-                    os.remove(res["part"])
                     rep.extra["generated_cases"] += res["emitted"]
-            sample_cases(allc, cases, SAMPLE[prop][tier], rng, prop, tier)
-            os.remove(allc)
+                    # every configuration gets its share of the sample
+                    quota = int(SAMPLE[prop][tier] * w / wsum) if w else RWX_MAX[tier]
+                    first += sample_cases(res["part"], out, quota, rng, prop, tier, first)
+                    os.remove(res["part"])
         t1 = time.time()
         shards = core.split_file(cases, 16, wd, "cases")
         traces = core.run_module_parallel("harness.asm.runner", shards, wd, "asm")
@@ -162,7 +185,10 @@ def run(prop: str, tier: str, replay: str = None) -> int:
             "Asm.tla for the configured vocabularies, sampled by seed and assigned a target "
             "(isa, format, syntax, pie) round-robin; non-trivial = assembly completed (no "
             f"refusal) and at least one {prop}_* clause other than *_Completes in its domain; "
-            "distinct by (tokens with chunk numbers, options, target)")
+            "distinct by (tokens with chunk numbers, options, target)"
+            + ("; plus every scenario of AsmRw.tla (2..N insert_at / register_insert_function "
+               "operations whose patches define the same temporary labels, applied by one real "
+               "RewritingContext), non-trivial = apply() completed" if prop == "C13" else ""))
         rep.assumptions = [
             "capstone is the independent observer of instruction boundaries, classes and x86 operand fields",
             "LLVM-MC (mcasm) is part of the assembler under test; its encodings are observed, not specified",
@@ -193,9 +219,13 @@ def judge(rep: Report, prop: str, verdicts: List[dict], case_by_id: Dict[str, di
         by_target[tgt] = by_target.get(tgt, 0) + 1
         nontrivial = v.get("exc", "") == "" and any(not c.endswith("_Completes") for c in mine)
         if nontrivial:
-            key = {k: case.get(k) for k in ("toks", "tu", "au", "icfi", "ms", "isa", "fmt", "syn", "pie")}
+            key = {k: case.get(k) for k in ("toks", "ops", "tu", "au", "icfi", "ms", "isa", "fmt", "syn", "pie")}
             rep.nontrivial.add(core.case_hash(key))
-            if len(rep.samples) < 4 and len(case.get("toks", [])) >= 3:
+            kind = case.get("kind", "asm")
+            if kind == "rwx":
+                rep.extra["rewrites_with_several_patches"] = rep.extra.get("rewrites_with_several_patches", 0) + 1
+            if (len([x for x in rep.samples if x["case"].get("kind", "asm") == kind]) < 3
+                    and len(case.get("toks", case.get("ops", []))) >= 3):
                 rep.samples.append({"case": case, "in_domain": mine})
         if v.get("drift"):
             d = v["drift"]
